@@ -14,6 +14,10 @@ def run(ctx):
     # (per-position op sets of process 1, kp operations of process 2 drawn from pops); the quick tier covers every 2-operation
     # history of process 1 by four harnesses that fix the kind of each position (solved in parallel)
     q = [((1, 1), 1, 0x03), ((1, 2), 1, 0x03), ((2, 1), 1, 0x03), ((2, 2), 1, 0x03)]
+    # three process lifetimes: a history, crash, reopen, further stores (per-position sets pops), clean end, SECOND reopen, probe. The quick
+    # variant is exactly: first put of a fresh store crashes at each of its system calls (or not), reopen, put, control put, reopen, probe
+    q3 = [((1,), (1, 2))]
+    t3 = q3 + [((3,), (3, 3)), ((3, 3), (3,))]
     # thorough: the quick four with pointer/overflow instrumentation, any 2 and any 3 stores before the crash. (Two further operations after
     # reopening, and gets inside process 1, were tried: their reachability twins alone exceed the 600 s cap of the runner - not listed.)
     t = q + [((3, 3), 1, 0x03), ((3, 3, 3), 1, 0x03)]
@@ -29,6 +33,19 @@ def run(ctx):
                                'process 2: initialise on the frozen files + %d operations from {message put, control put} with a symbolic probe get(1..6) + control get after reopen and after each operation; '
                                'seqnums 0..6, payloads 1-2 symbolic bytes, control values <= 1000; FIX8_MAX_MSG_LENGTH scaled to %d' % (k, [hex(s_) for s_ in sets], kp, C26.MSGLEN),
                         desc='real FilePersister: crash at every system-call boundary, reopen, oracle = reference built from the completed operations'))
+    for sets, psets in (q3 if ctx.tier == 'quick' else t3):
+        k = len(sets); kp = len(psets); nrec = k + kp + 1; ops = 0; pops = 0
+        for s_ in sets: ops |= s_
+        for s_ in psets: pops |= s_
+        ctx.add(Harness('C27_crash3_%s_then_%s' % ('_'.join('%x' % s_ for s_ in sets), '_'.join('%x' % s_ for s_ in psets)), VERIF + '/harness/C27_crash.c',
+                        defines=defs + ['K=%d' % k, 'KP=%d' % kp, 'OPS=0x%x' % ops, 'POPS=0x%x' % pops, 'STAGE3', 'VF_MAXCOPY=8', 'VF_FS_CRASH=1', 'VF_FS_FSIZE=%d' % (16 * (nrec + 1))]
+                                + ['OPS%d=0x%x' % (i, s_) for i, s_ in enumerate(sets)] + ['POPS%d=0x%x' % (i, s_) for i, s_ in enumerate(psets)],
+                        unwind=nrec + 2, unwindset=C26.FUS + ['main.0:%d' % (k + 1), 'main.1:%d' % (kp + 1)],
+                        timeout=1200 if ctx.tier == 'quick' else 3600, mem_gb=16, functions=FUN, stubs=STUBS, nochecks=True,
+                        bounds='process 1: initialise on an empty directory + up to %d operations (position i from %s), crash after any completed write/lseek or none; process 2: reopen + %d operations '
+                               '(position j from %s; bit 0 message put, 1 control put) with probes; process 2 ends without crash; process 3: a fresh FilePersister reopens the files, symbolic probe get(1..6) + control get; '
+                               'seqnums 0..6, payloads 1-2 symbolic bytes' % (k, [hex(s_) for s_ in sets], kp, [hex(s_) for s_ in psets]),
+                        desc='real FilePersister through three process lifetimes: what the files say after a second reopen equals the reference'))
     ctx.assumptions += ['operator new never fails', 'rb-tree rebalancing replaced by an unbalanced BST with the same in-order sequence',
                         'POSIX calls follow models/posixfs.c: no I/O errors, a write is atomic (torn writes not modelled), what a completed write put into the file survives the process crash (no power failure)',
                         'the operation in flight at the crash may or may not have taken effect (atomically); completed = the call returned before the crash']
@@ -50,5 +67,6 @@ def replay(ctx, cx, h=None):
     args += [str(kp)]
     for i in range(kp): args += [str(g('cx_pop', i)), str(g('cx_pa', i)), str(g('cx_pb', i)), str(g('cx_pd0', i)), str(g('cx_pd1', i)), str(max(1, g('cx_plen', i)))]
     for i in range(kp + 1): args += [str(max(1, g('cx_probe', i)))]
+    if (h is not None and 'crash3' in h.name) or c.get('stage3'): args += [str(max(1, g('cx_probe', kp + 1)))]
     r = sh([exe] + args, env=dict(os.environ, ASAN_OPTIONS='detect_leaks=0'))
     return r.returncode == 1, ' '.join(args) + ' -> ' + r.stdout.strip()[-500:].replace('\n', ' | ')
